@@ -30,6 +30,7 @@ fn main() {
 	let mut snaps: Vec<String> = vec![];
 	let mut touch: Vec<String> = vec![];
 	let mut remove: Vec<String> = vec![];
+	let mut fill: Vec<(String, usize)> = vec![];
 	let mut sleep_ms = 0u64;
 	let mut i = 4;
 	let mut rest: Vec<String> = vec![];
@@ -42,6 +43,10 @@ fn main() {
 			"--touch" if i + 1 < argv.len() => {
 				touch.push(argv[i + 1].clone());
 				i += 2;
+			}
+			"--fill" if i + 2 < argv.len() => {
+				fill.push((argv[i + 1].clone(), argv[i + 2].parse().unwrap_or(0)));
+				i += 3;
 			}
 			"--remove" if i + 1 < argv.len() => {
 				remove.push(argv[i + 1].clone());
@@ -84,6 +89,9 @@ fn main() {
 	// side effects an administrator's hook may have on the file being written (after the snapshot)
 	for p in touch.iter().filter(|p| !p.is_empty()) {
 		let _ = std::fs::OpenOptions::new().create(true).append(true).open(p);
+	}
+	for (p, n) in fill.iter().filter(|(p, _)| !p.is_empty()) {
+		let _ = std::fs::write(p, "placeholder line installed by a preparation hook\n".repeat(n / 49 + 1));
 	}
 	for p in remove.iter().filter(|p| !p.is_empty()) {
 		let _ = std::fs::rename(p, format!("{p}.bak"));
